@@ -60,6 +60,9 @@ def object_kinds():
         n = qc.__name__
         ks += [(n + ".select", lambda qc=qc: B.sel(qc)), (n + ".insert", lambda qc=qc: B.ins(qc, qc is not B.MSSQLQuery)),
                (n + ".update", lambda qc=qc: B.upd(qc)), (n + ".delete", lambda qc=qc: B.dele(qc)),
+               # a WITH body that reads the FROM table (the Cte objects are shared between a builder and its shallow copies)
+               (n + ".with-cte", lambda qc=qc: qc.with_(qc.from_(T_("t", alias="ta")).select("x").where(T_("t", alias="ta").y == 1), "c0")
+                .from_(T_("t", alias="ta")).join(P.AliasedQuery("c0")).on(T_("t", alias="ta").a == P.AliasedQuery("c0").x).select("a")),
                (n + ".nested", lambda qc=qc: qc.from_(B.sel(qc, False)).select("a").where(B.T.Field("a").isin(B.sel(B.P.Query, False))))]
     return ks
 
@@ -161,7 +164,7 @@ def check(run: core.Run):
                 snap_other = obs(other)
                 done = -len(own)
                 for cls, name in ms:
-                    a = B.args_for(cls, name, side, rng.randrange(3))
+                    a = B.args_for(cls, name, side, 0 if name == "replace_table" else rng.randrange(3))
                     if a is None:
                         continue
                     try:
